@@ -48,3 +48,44 @@ package zoekt
 //@   foreach_field Stats except Duration,FlushReason ensures sentStats.$f == old(sentStats.$f) + old(event.Stats.$f)
 //@   ensures sentFiles == old(sentFiles) + old(len(event.Files))
 //@   assigns sentStats, sentFiles
+
+// ---------------------------------------------------------------------------
+// C26: decoding arbitrary bytes returns a value or an error: no panic, no
+// allocation or loop bound taken unchecked from the input.
+// ---------------------------------------------------------------------------
+
+// b2s reinterprets the bytes as a string (unsafe): assumed, not verified.
+//@ func zoekt.b2s
+//@   trusted
+//@   ensures len(result) == len(b)
+//@   assigns nothing
+
+//@ func zoekt.(*binaryReader).uvarint
+//@   requires b != nil
+//@   ensures result >= 0 && len(b.b) <= old(len(b.b))
+//@   assigns b.b, b.err
+
+//@ func zoekt.(*binaryReader).count
+//@   requires b != nil
+//@   ensures result >= 0 && result <= len(b.b) && len(b.b) <= old(len(b.b))
+//@   assigns b.b, b.err
+
+//@ func zoekt.(*binaryReader).str
+//@   requires b != nil
+//@   ensures len(b.b) <= old(len(b.b))
+//@   assigns b.b, b.err
+
+//@ func zoekt.(*binaryReader).byt
+//@   requires b != nil
+//@   ensures len(b.b) <= old(len(b.b))
+//@   assigns b.b, b.err
+
+// Loop bounds l, lb are at most the number of input bytes (invariants 1): the
+// decoder can neither spin nor allocate beyond a constant factor of its input.
+//@ func zoekt.reposMapDecode
+//@   loop 1:
+//@     invariant l <= len(b) && len(r.b) <= len(b)
+//@   loop 2:
+//@     invariant lb <= len(b) && len(r.b) <= len(b)
+//@     invariant 0 <= $n && len(allBranches) >= $n
+//@   ensures true
